@@ -3,7 +3,7 @@ r"""Independent SQL lexer (SQL-92 lexical rules shared by standard SQL, SQLite a
 Token = (type, text, start, end) with type in:
   STR   single-quoted, quote doubled     ID   double-quoted, quote doubled     NUM  123 1.5 1e3
   WORD  keywords / function names / bare identifiers (upper-cased in .norm)
-  OP    = != <> < <= > >= + - * / % ||            PUNCT ( ) , . ;
+  OP    = != <> < <= > >= + - * / % ||            PUNCT ( ) , . ; [ ]
   COMMENT  -- ... / /* ... */
 Errors raise SqlLexError (unterminated literal / identifier / comment, stray character).
 """
@@ -84,7 +84,7 @@ def lex(sql):
                 i += len(op)
                 break
         else:
-            if c in "(),.;":
+            if c in "(),.;[]":      # [ ] : array constructors / subscripts (Trino, PostgreSQL)
                 toks.append(("PUNCT", c, i, i + 1))
                 i += 1
             else:
